@@ -91,6 +91,9 @@ def sim_kernels():
         ns = parfor.sim_namespace(core)
         ks = {}
         for name in NUMBA_KERNELS:
+            if not hasattr(core, name):
+                _SIM["unsupported"][name] = "kernel name no longer exists in speckit.core"
+                continue
             try:
                 fn = parfor.build_sim_kernel(getattr(core, name), ns, "core." + name)
                 if getattr(fn, "__sim_parfor_loops__", 0) == 0:
@@ -120,7 +123,7 @@ def sim_numba(ctx):
     old = parfor.current()
     parfor.set_context(ctx)
     try:
-        with patched(analysis, mapping):
+        with patched(analysis, {k: v for k, v in mapping.items() if hasattr(analysis, k)}):
             yield
     finally:
         parfor.set_context(old)
